@@ -24,9 +24,9 @@ PROP = "C05"
 DISP = {"pub": ["public"], "pubprot": ["public", "protected"], "all": ["public", "protected", "private"], "priv": ["private"], "none": ["none"]}
 PARENT_PAGE = {"m": "module/m.html", "t_pub": "type/t_pub.html", "s_pub": "proc/s_pub.html", "sm": "module/sm.html", "mp": "proc/mp.html"}
 OWN_PAGE = {"t_pub": "type/t_pub.html", "t_prv": "type/t_prv.html", "s_pub": "proc/s_pub.html", "s_prv": "proc/s_prv.html",
-            "g_pub": "interface/g_pub.html", "ai_prv": "interface/ai_prv.html", "mp": "proc/mp.html"}
+            "g_pub": "interface/g_pub.html", "ai_prv": "interface/ai_prv.html", "mp": "proc/mp.html", "mpi": "interface/mp.html"}
 PARENT = {"v_pub": "m", "v_prv": "m", "v_pro": "m", "u_pub": "m", "t_pub": "m", "t_prv": "m", "c_pub": "t_pub", "c_prv": "t_pub",
-          "b_pub": "t_pub", "b_prv": "t_pub", "s_pub": "m", "s_prv": "m", "lv": "s_pub", "inner": "s_pub", "g_pub": "m", "ai_prv": "m", "mp": "sm", "mplv": "mp"}
+          "b_pub": "t_pub", "b_prv": "t_pub", "s_pub": "m", "s_prv": "m", "lv": "s_pub", "inner": "s_pub", "g_pub": "m", "ai_prv": "m", "mp": "sm", "mplv": "mp", "mpi": "m"}
 
 
 def trc(n):
@@ -57,7 +57,7 @@ def render(opt):
            f"    procedure, private :: b_prv => impl_c !! {trc('b_prv')}\n"
            "  end type t_pub\n"
            f"  type, private :: t_prv\n    !! {trc('t_prv')}\n    integer :: z\n  end type t_prv\n"
-           "  interface\n    module subroutine mp()\n    end subroutine mp\n  end interface\n"
+           f"  interface\n    module subroutine mp()\n      !! {trc('mpi')}\n    end subroutine mp\n  end interface\n"
            f"  interface g_pub\n    !! {trc('g_pub')}\n    module procedure impl_g\n  end interface g_pub\n"
            f"  abstract interface\n    subroutine ai_prv(k)\n      !! {trc('ai_prv')}\n      integer :: k\n    end subroutine ai_prv\n  end interface\n"
            "contains\n"
@@ -161,6 +161,7 @@ def run(tier, seed, ck: Check):
         sel = set(table[json.dumps(dict(opt, ofile="absent"), sort_keys=True)])
         if opt["hide_undoc"]:
             sel.discard("ai_prv")
+            sel.discard("mpi")
         return sel
 
     div = 1 if big else 20
@@ -179,7 +180,7 @@ def run(tier, seed, ck: Check):
             seen.add((tag, b[:40]))
             if explained and tag in ("missing", "leak", "leak-search", "no-page", "page-of-unselected", "undoc", "link"):
                 hit = False
-                if c["opt"]["hide_undoc"] and b.startswith("ai_prv "):
+                if c["opt"]["hide_undoc"] and b.startswith(("ai_prv ", "mpi ")):
                     hit = ck.known_finding("C05-F2")
                 elif c["opt"]["ofile"] != "absent":
                     hit = ck.known_finding("C05-F1")
